@@ -151,12 +151,18 @@ CLAIMED = {
     },
     "C11": {
         "text": ("Theorems (Coq, no axioms) over a model of Merger.merge_with with a mergeat path (per-target "
-                 "dispatch, root-only replacement, the set_value route for scalars): C11_frame - nothing outside "
-                 "the matched subtrees changes, for all inputs; C11_targets_merged - each matched container "
-                 "becomes the C05 merge of its old content with the right-hand document (guarded against the "
-                 "scalar-into-scalar route, listed findings F-C11-1..3 with a _refuted witness); "
-                 "C11_unmatched_is_error.  The target locations and the document after path creation are inputs "
-                 "obtained from the real Processor (path creation is C09).  Tie: left documents x target paths "
+                 "dispatch, the returned merge result stored at the target, the per-target _apply_change route for "
+                 "a Scalar into a Scalar): C11_frame - nothing outside the matched subtrees changes, for all inputs; "
+                 "C11_targets_merged - EVERY matched node (single or multi-target path, any kind of target, any "
+                 "policy; no guard since the repairs 6840572 / c8dbfd9 of the former findings F-C11-1/2) holds what "
+                 "the per-target dispatch makes of its old content, and C11_target_is_policy_merge - that is the node "
+                 "C05's insert returns; C11_unmatched_is_error; a missing path: C11_created_target_holds_rhs (a created "
+                 "path holding the right-hand document keeps it; full) and C11_missing_created_partial (composition "
+                 "with C09's creation model for straight key/index paths and Scalar right-hand documents under C09's "
+                 "guard: the path holds the value afterwards, everything that existed is still in place).  The target "
+                 "locations and the document after path creation are inputs obtained from the real Processor.  Known "
+                 "finding F-C11-5: a missing path holding a wildcard/search segment makes path creation store the "
+                 "right-hand document and merge it into its own children.  Tie: left documents x target paths "
                  "(single, wildcard/search multi, missing, uncreatable) x right documents of every root type x "
                  "policies."),
         "design_ref": "DESIGN.md section 4 (C11), docs/C11.md",
